@@ -1,28 +1,71 @@
-(* C13 (3): Fourier1 per-direction factor f1s n enclosed by interval arithmetic, n in [15, 23, 26]
+(* C13 (3): Fourier1 per-direction factor f1s n enclosed by interval arithmetic on its closed form, n in [7, 10, 23, 26, 39, 42, 55, 58]
    (file generated once by a script, split for parallel compilation; independent of /repo). *)
-From Coq Require Import ZArith List Reals Lra.
+From Coq Require Import ZArith List Lia Reals Lra.
 From Interval Require Import Tactic.
 From Flocq Require Import Raux.
-From P Require Import C13_gen C13_model C13_proofs_weights.
+From P Require Import C13_gen C13_model C13_proofs_weights C13_proofs_f1c.
 Open Scope R_scope.
 
-Lemma f1s_bound_15 : 1 - / IZR 15 <= f1s 15 <= 1.
+Lemma f1s_bound_7 : 1 - / IZR 7 <= f1s 7 <= 1.
 Proof.
-  assert (H : Rabs (f1s 15 - (1 - / IZR 15 / 2)) <= / IZR 15 / 2).
-  { unfold f1s, fourier1_dir, sumR. ev. interval. }
+  rewrite f1s_closed_form by (clear; lia).
+  assert (H : Rabs (f1s_closed 7 - (1 - / IZR 7 / 2)) <= / IZR 7 / 2).
+  { unfold f1s_closed, f1_term, sumR. ev. interval. }
+  apply Rabs_le_inv in H. lra.
+Qed.
+
+Lemma f1s_bound_10 : 1 - / IZR 10 <= f1s 10 <= 1.
+Proof.
+  rewrite f1s_closed_form by (clear; lia).
+  assert (H : Rabs (f1s_closed 10 - (1 - / IZR 10 / 2)) <= / IZR 10 / 2).
+  { unfold f1s_closed, f1_term, sumR. ev. interval. }
   apply Rabs_le_inv in H. lra.
 Qed.
 
 Lemma f1s_bound_23 : 1 - / IZR 23 <= f1s 23 <= 1.
 Proof.
-  assert (H : Rabs (f1s 23 - (1 - / IZR 23 / 2)) <= / IZR 23 / 2).
-  { unfold f1s, fourier1_dir, sumR. ev. interval. }
+  rewrite f1s_closed_form by (clear; lia).
+  assert (H : Rabs (f1s_closed 23 - (1 - / IZR 23 / 2)) <= / IZR 23 / 2).
+  { unfold f1s_closed, f1_term, sumR. ev. interval. }
   apply Rabs_le_inv in H. lra.
 Qed.
 
 Lemma f1s_bound_26 : 1 - / IZR 26 <= f1s 26 <= 1.
 Proof.
-  assert (H : Rabs (f1s 26 - (1 - / IZR 26 / 2)) <= / IZR 26 / 2).
-  { unfold f1s, fourier1_dir, sumR. ev. interval. }
+  rewrite f1s_closed_form by (clear; lia).
+  assert (H : Rabs (f1s_closed 26 - (1 - / IZR 26 / 2)) <= / IZR 26 / 2).
+  { unfold f1s_closed, f1_term, sumR. ev. interval. }
+  apply Rabs_le_inv in H. lra.
+Qed.
+
+Lemma f1s_bound_39 : 1 - / IZR 39 <= f1s 39 <= 1.
+Proof.
+  rewrite f1s_closed_form by (clear; lia).
+  assert (H : Rabs (f1s_closed 39 - (1 - / IZR 39 / 2)) <= / IZR 39 / 2).
+  { unfold f1s_closed, f1_term, sumR. ev. interval. }
+  apply Rabs_le_inv in H. lra.
+Qed.
+
+Lemma f1s_bound_42 : 1 - / IZR 42 <= f1s 42 <= 1.
+Proof.
+  rewrite f1s_closed_form by (clear; lia).
+  assert (H : Rabs (f1s_closed 42 - (1 - / IZR 42 / 2)) <= / IZR 42 / 2).
+  { unfold f1s_closed, f1_term, sumR. ev. interval. }
+  apply Rabs_le_inv in H. lra.
+Qed.
+
+Lemma f1s_bound_55 : 1 - / IZR 55 <= f1s 55 <= 1.
+Proof.
+  rewrite f1s_closed_form by (clear; lia).
+  assert (H : Rabs (f1s_closed 55 - (1 - / IZR 55 / 2)) <= / IZR 55 / 2).
+  { unfold f1s_closed, f1_term, sumR. ev. interval. }
+  apply Rabs_le_inv in H. lra.
+Qed.
+
+Lemma f1s_bound_58 : 1 - / IZR 58 <= f1s 58 <= 1.
+Proof.
+  rewrite f1s_closed_form by (clear; lia).
+  assert (H : Rabs (f1s_closed 58 - (1 - / IZR 58 / 2)) <= / IZR 58 / 2).
+  { unfold f1s_closed, f1_term, sumR. ev. interval. }
   apply Rabs_le_inv in H. lra.
 Qed.
